@@ -53,7 +53,7 @@ func addSpec(s *Spec) {
 }
 
 var portfolioMain = []string{"p1", "p2", "p3", "p4", "p5", "p8"}
-var portfolioAll = []string{"p1", "p10", "p11", "p2", "p3", "p4", "p5", "p6", "p7", "p8", "p9"}
+var portfolioAll = []string{"p1", "p10", "p11", "p12", "p2", "p3", "p4", "p5", "p6", "p7", "p8", "p9"}
 
 func init() {
 	addSpec(&Spec{ID: "C01", Title: "write-then-read returns exactly the records added", Level: "exploration",
@@ -64,7 +64,7 @@ func init() {
 		Require: []string{"codec_uncompressed", "codec_snappy", "codec_gzip", "multipage_bool_required_files", "multipage_bool_optional_files", "multipage_repeated_files"},
 	})
 	addSpec(&Spec{ID: "C02", Title: "every written file is structurally valid Parquet with a truthful footer", Level: "exploration",
-		Shapes: portfolioAll, Universe: 100,
+		Shapes: append(append([]string{}, portfolioAll...), "p13"), Universe: 100,
 		Rule: "cases as C01 on portfolio P1-P9 plus 100 enumerated struct shapes without C05 finding; every file parsed by ref/pqfile and each sub-check (observed_counters check_*) evaluated; distinct = (shape, partition, page size, codec); " +
 			"non-trivial = >= 2 row groups or >= 2 pages in a chunk",
 		Require: []string{"multi_rowgroup_compressed_files", "check_schema_matches_struct", "check_contiguous", "check_page_sections", "check_rg_total_byte_size"},
